@@ -2,7 +2,7 @@ SPEC = dict(
     props_file="Props/C41.v",
     level="proof",
     observers=[dict(cmd="obs_compatpipe", imports=["Model.CompatPipe"], case_type="CompatPipe.case",
-                    check="CompatPipe.check_case", n={"quick": 2400, "thorough": 40000}, shard=300)],
+                    check="CompatPipe.check_case", n={"quick": 1700, "thorough": 40000}, shard=300)],
     rule="generated programs over Pipeline / TxPipeline / Watch+Tx of rueidiscompat (15 command templates of 5 Cmd "
          "types incl. Do, failing commands: WRONGTYPE, not-an-integer, unknown command => EXECABORT, nil replies; Do() "
          "without arguments, Len, Discard, re-use after Exec, nested Pipelined/TxPipelined incl. a failing fn, entry "
